@@ -106,6 +106,11 @@ def st_case(kind):
             dw = draw(st.sampled_from([8, 16, 32, 32, 64, 128]))
             hdr = st_header(draw, dw)
             pk = st_packets(draw, hdr, dw, npk_max=4 if tier == "quick" else 6)
+            if kind == "depacketizer" and hdr["length"] % (dw // 8):
+                # a packet may end inside the residue word (its payload is shorter than one beat): only a Depacketizer
+                # used alone can meet this, a Packetizer always emits a word after the residue word
+                for p_ in pk:
+                    p_["short"] = draw(st.integers(0, 2)) == 0
             return {"kind": kind, "dw": dw, "hdr": hdr, "pk": pk, "ps": draw(bench.st_schedule()), "cs": draw(bench.st_schedule()),
                     "g": draw(st.one_of(st.none(), st.integers(0, 2 ** 16))), "fifo_front": draw(st.booleans())}
         return case()
@@ -141,8 +146,12 @@ def _ref_words(case, p, junk=0):
     """reference word stream of one packet: list of (word, valid byte count)"""
     B = case["dw"] // 8
     bs = header_bytes(case["hdr"], p["hv"])
-    for d in p["data"]:
-        bs += [(d >> (8 * i)) & 0xff for i in range(B)]
+    if p.get("short"):
+        L = case["hdr"]["length"] % B
+        bs += [(p["data"][0] >> (8 * i)) & 0xff for i in range(B - L)]
+    else:
+        for d in p["data"]:
+            bs += [(d >> (8 * i)) & 0xff for i in range(B)]
     words = []
     for i in range(0, len(bs), B):
         chunk = bs[i:i + B]
@@ -153,11 +162,12 @@ def _ref_words(case, p, junk=0):
     return words
 
 
-def _run(dut, prod_ep, cons_ep, toks, case, extra_agents=(), limit_mul=1):
+def _run(dut, prod_ep, cons_ep, toks, case, extra_agents=(), limit_mul=1, hold_key=None):
     n = len(toks)
     main = 8 * n + 60
     prod = bench.Producer(prod_ep, toks, case["ps"], garbage_seed=case["g"], until=main)
     cons = bench.Consumer(cons_ep, case["cs"], until=main)
+    cons.hold_key = hold_key
     quiet = {"n": 0, "g": 0, "s": 0}
 
     def stop(t):
@@ -183,6 +193,11 @@ def _cls(case, cons, prod):
         c.append("backpressure")
     if case.get("g") is not None:
         c.append("garbage-idle")
+    sh = [bool(p.get("short")) for p in case.get("pk", [])]
+    if any(sh):
+        c.append("ends-in-residue")
+    if any(sh[:-1]):
+        c.append("packet-after-residue-end")
     return c
 
 
@@ -268,8 +283,23 @@ def run_depacketizer(case):
         ws = _ref_words(case, p, junk=(case["g"] or 0) * 0x9e3779b97f4a7c15 + k)
         for i, (w, nv) in enumerate(ws):
             toks.append(((w,), (), int(i == 0), int(i == len(ws) - 1)))
-    prod, cons, cyc = _run(dut, dut.sink, dut.source, toks, case)
+    # the beat that flushes a packet ending inside the residue word carries bytes of no packet above the payload: the
+    # framing property says nothing about them, so the hold rule is not demanded of them either
+    masks = _beat_masks(case)
+
+    def hold_key(tok, i):
+        return ((tok[0][0] & (masks[i] if i < len(masks) else -1),),) + tuple(tok[1:])
+    prod, cons, cyc = _run(dut, dut.sink, dut.source, toks, case, hold_key=hold_key if any(p.get("short") for p in case["pk"]) else None)
     return _judge_packets(case, prod, cons, cyc, len(toks), "Depacketizer")
+
+
+def _beat_masks(case):
+    B = case["dw"] // 8
+    L = case["hdr"]["length"] % B
+    out = []
+    for p in case["pk"]:
+        out += [_m(8 * (B - L))] if p.get("short") else [_m(case["dw"])] * len(p["data"])
+    return out
 
 
 def _judge_packets(case, prod, cons, cyc, ntoks, what):
@@ -277,11 +307,20 @@ def _judge_packets(case, prod, cons, cyc, ntoks, what):
     names = _names(case["hdr"])
     ctx = "%s dw=%d header=%r" % (what, case["dw"], case["hdr"])
     exp = []
+    masks = []
+    B = case["dw"] // 8
     for p in case["pk"]:
         par = tuple(p["hv"][n] for n in names)
+        if p.get("short"):
+            L = case["hdr"]["length"] % B
+            mk = _m(8 * (B - L))
+            exp.append((p["data"][0] & mk, par, 1))
+            masks.append(mk)
+            continue
         for i, d in enumerate(p["data"]):
             exp.append((d, par, int(i == len(p["data"]) - 1)))
-    got = [(t[0][0], t[1], t[3]) for _, t in cons.got]
+            masks.append(_m(case["dw"]))
+    got = [(t[0][0] & (masks[i] if i < len(masks) else -1), t[1], t[3]) for i, (_, t) in enumerate(cons.got)]
     if len(prod.sent) < ntoks:
         return bad("hang", "%s: only %d of %d input beats accepted, %d of %d beats delivered" % (ctx, len(prod.sent), ntoks, len(got), len(exp)),
                    key=_pkey(case, "hang"), cls=cls, cycles=cyc)
